@@ -15,6 +15,7 @@ from ..paths import all_paths
 
 REARM_FUNCS = ("reset_stage_for_retry",)
 FORCE_FUNCS = ("reset_stage_to_succeeded", "reset_stage_to_skipped", "reset_stage_to_terminal")
+FORCE_TASKS_LIVE_ONLY = ("reset_stage_to_succeeded", "reset_stage_to_terminal")      # applied to a stage that ran: finished tasks stay as they are
 REARM_HANDLERS = {"JumpToStageHandler", "RestartStageHandler"}
 
 # direct writes that no engine path reaches, with the reason they are out of scope
@@ -89,7 +90,10 @@ def run(ctx, rep) -> None:
                     verdict = "re-arm by jump / operator restart (reset_stage_for_retry)"
                 elif "Workflow.update_status" in ctxs and name == "RestartStageHandler" and to == frozenset({"RUNNING"}):
                     verdict = "operator restart brings the completed workflow back to RUNNING"
-                elif any(f in ctxs for f in FORCE_FUNCS) and name == "JumpToStageHandler":
+                elif any(f in ctxs for f in FORCE_FUNCS) and name == "JumpToStageHandler" and not (
+                        e.get("okind") == "task" and fn in FORCE_TASKS_LIVE_ONLY and (frozenset(frm) & T.sets["COMPLETED_STATUSES"])):
+                    # force-marking a source stage SUCCEEDED / TERMINAL closes only the tasks that are still live: a task that
+                    # already completed keeps its outcome (completed is final) - so those two helpers must guard the task write
                     verdict = "jump force-mark (listed; protocol assumption)"
                 else:
                     # not durable: the written object is never stored later on this path
